@@ -581,6 +581,8 @@ impl ContinuityStreamCache {
 
         let mut backscan_bytes = INITIAL_BACKSCAN_BYTES;
         loop {
+            #[cfg(feature = "verif")]
+            rip_kernel::verif::tick("tail_window");
             let mut file = File::open(&sidecar_path)?;
             let parsed = scan_sidecar_backwards(
                 &mut file,
@@ -777,6 +779,8 @@ impl ContinuityStreamCache {
         let mut max_bytes: usize = REVERSE_SCAN_CHUNK_BYTES * 2;
         let max_cap: usize = 4 * 1024 * 1024;
         loop {
+            #[cfg(feature = "verif")]
+            rip_kernel::verif::tick("tail_window");
             let tail = scan_sidecar_backwards(
                 &mut file,
                 continuity_id,
